@@ -173,6 +173,8 @@ public:
 			lo = two_sum(s2, t1, t1);
 			t1 += t2;
 			three_sum(hi, lo, t1);
+			// three_sum's first output is not always the rounded total (heads that nearly cancel): renormalise
+			hi = quick_two_sum(hi, lo, lo);
 		}
 		else {
 			lo = 0.0;
@@ -190,6 +192,8 @@ public:
 			lo = two_sum(s2, t1, t1);
 			t1 += t2;
 			three_sum(hi, lo, t1);
+			// three_sum's first output is not always the rounded total (heads that nearly cancel): renormalise
+			hi = quick_two_sum(hi, lo, lo);
 		}
 		else {
 			lo = 0.0;
